@@ -46,6 +46,16 @@ type Result struct {
 
 var scratchN int64
 
+func init() {
+	// scratch roots of this process that are still there at exit (early exits skip deferred removals)
+	base.Cleanup = append(base.Cleanup, func() {
+		ds, _ := filepath.Glob(fmt.Sprintf("/var/tmp/vfw-%d-*", os.Getpid()))
+		for _, d := range ds {
+			os.RemoveAll(d)
+		}
+	})
+}
+
 // Scratch creates a fresh scratch root (no "testdata", no pool token in the path).
 func Scratch() string {
 	n := atomic.AddInt64(&scratchN, 1)
